@@ -638,6 +638,32 @@ fn nonfinite_stream(out: &mut Out, rng: &mut SplitMix64)
     }
 }
 
+/// FIXED part of the stream: `Kron` gates whose factors have DIFFERENT widths (1+2, 2+1, 1+3, 3+1, nested), plain and
+/// under a condition, on distinct in-range qubits (ascending, descending, rotated): the operand list has to be split
+/// at the width of the FIRST factor by every consumer (the routes, conjugate, the three exporters and their
+/// conditional forms) - a split at the wrong place hands a factor too few operands (index panic) or the wrong ones.
+fn kron_stream(out: &mut Out, rng: &mut SplitMix64)
+{
+    let shapes: [(&str, usize); 14] = [("Kron X CX", 3), ("Kron CX X", 3), ("Kron H CZ", 3), ("Kron Swap S", 3), ("Kron T CX", 3),
+        ("Kron CY Tdg", 3), ("Kron X CCX", 4), ("Kron CCX Z", 4), ("Kron Swap Kron H X", 4), ("Kron Kron X CX Y", 4),
+        ("Kron Y Kron CX V", 4), ("Kron H H", 2), ("Kron CX CZ", 4), ("Kron Kron H S CX", 4)];
+    for (g, k) in shapes.iter()
+    {
+        let asc: Vec<usize> = (0..*k).collect();
+        let desc: Vec<usize> = (0..*k).rev().collect();
+        let rot: Vec<usize> = (0..*k).map(|i| (i + 1) % *k).collect();
+        for bits in [asc, desc, rot].iter()
+        {
+            let cond = vec!["h 0".to_string(), "measure 0 0".to_string(),
+                format!("add_conditional_gate 1 0 1 {} {}", list_text(bits), g), format!("measure {} 0", *k - 1)];
+            // one classical bit: the condition spans the whole register (OpenQASM refuses partial registers first)
+            run_sequence(out, rng, *k, 1, &cond, 2);
+            let plain = vec!["h 0".to_string(), format!("add_gate {} {}", list_text(bits), g), format!("measure_all {}", list_text(&(0..*k).collect::<Vec<usize>>()))];
+            run_sequence(out, rng, *k, *k, &plain, 2);
+        }
+    }
+}
+
 // ------------------------------------------------------------------------------------------------
 // the QuState level: every public trait method that takes a gate or an operand list, called DIRECTLY on both
 // representations (Circuit only ever passes H, S, Sdg to apply_unary_gate_all, validated qubits, a register of the
@@ -789,6 +815,7 @@ fn main()
     macro_stream(&mut out);
     sibling_stream(&mut out, &mut rng);
     nonfinite_stream(&mut out, &mut rng);
+    kron_stream(&mut out, &mut rng);
     qustate_stream(&mut out, &mut rng);
 
     let nseq = if thorough() { 2500 } else { 420 };
